@@ -124,6 +124,11 @@ verus_unit("contextv", "contextv", ["C17"], [
     "AirContext::new_multi_segment (whenever the constructor returns: ce_blowup_factor >= every main and auxiliary constraint's degree bound and >= 2, the LDE blowup >= ce_blowup_factor, at least one main degree and assertion, auxiliary degrees / assertions exactly for multi-segment traces, a Lagrange column only as the last auxiliary column, exemption count 1, all arguments stored unchanged; documented panics modelled as not returning)"])
 
 
+verus_unit("coeffv", "coeffv", ["C04"], [
+    "Air::get_constraint_composition_coefficients (every number of transition constraints and assertions, with and without a Lagrange kernel column: coefficient i of the documented order is the i-th value the coin yields from its state at the call - every coefficient a fresh draw, none reused - and the coin advances by exactly the number of coefficients; abstract coin)",
+    "Air::get_deep_composition_coefficients (the same for trace columns, then composition columns, then the Lagrange coefficient)"])
+
+
 verus_unit("oodv", "oodv", ["C03", "C06", "C12", "C04", "C05"], [
     "TraceOodFrame::to_trace_states / TraceOodFrame::hash (what the coin absorbs for the out-of-domain trace frame: the hash of the current / next evaluations interleaved per column followed by the Lagrange kernel frame values, every width)",
     "OodFrame::parse (every main / auxiliary width up to 255, every number of evaluations, every Lagrange frame size, EVERY content of the three byte vectors, abstract element decoder: Ok exactly when each section is canonical - Lagrange section = size byte k + exactly k element encodings, k > 0 only with an auxiliary segment; trace-state section = the byte 2 + exactly 2 * (main + aux') encodings; evaluation section = exactly num_evaluations encodings; nothing may follow in any section - and then the rows are the de-interleaved decoded elements, exactly main + aux' wide; no overflow / underflow / out-of-range index on any input)",
